@@ -20,7 +20,7 @@ import (
 )
 
 type jevent struct {
-	K  string `json:"k"` // conn out disc force pick add prot reach
+	K  string `json:"k"` // conn out disc force pick add prot reach newkad (P = BinMaxPeers of another kademlia.New in the process)
 	P  int    `json:"p"`
 	Ps []int  `json:"ps,omitempty"`
 	F1 bool   `json:"f1,omitempty"` // conn: force; out: bootnode; force: p2p.Disconnect fails; reach: public
@@ -137,6 +137,7 @@ func runCase(jc jcase) {
 		violate(jc, "thresholds:negative", fmt.Sprint(nn, qs, sat, over, bootOver), nil, nil)
 		return
 	}
+	liveSat := sat // saturationPeers is read live by binSaturated; another New may rewrite it
 	effOver := over
 	if jc.Boot && effOver < bootOver {
 		effOver = bootOver
@@ -169,11 +170,12 @@ func runCase(jc jcase) {
 			}
 			steps++
 			bin := uint8(0)
-			if ev.K != "add" && ev.K != "prot" {
+			if ev.K != "add" && ev.K != "prot" && ev.K != "newkad" {
 				bin = uint8(w.ids[ev.P].x)
 			}
 			preConn, _, _ := w.dump(false)
 			preSat, preOver := e.kad.VerifConnBinSaturation(bin)
+			satBefore := liveSat
 			prePot := e.kad.VerifConnPotentialDepth()
 			if preOver {
 				reachedOver = true
@@ -226,6 +228,15 @@ func runCase(jc jcase) {
 						st = p2p.ReachabilityStatusPrivate
 					}
 					e.kad.Reachable(w.addrs[ev.P], st)
+				case "newkad":
+					other := append([]byte{}, w.base.Bytes()...)
+					other[0] ^= 0xff
+					e2, err := newEnv(boson.NewAddress(other), ev.P, false, nil, false, false)
+					if err != nil {
+						panic(err)
+					}
+					e2.close()
+					_, _, liveSat, _, _ = kademlia.VerifConnThresholds()
 				default:
 					panic("bad event kind " + ev.K)
 				}
@@ -325,7 +336,7 @@ func runCase(jc jcase) {
 				}
 			}
 			wasProtected := protected[ev.P]
-			if ev.K == "prot" {
+			if ev.K == "prot" || ev.K == "newkad" {
 				wasProtected = false
 			}
 
@@ -396,7 +407,7 @@ func runCase(jc jcase) {
 				run.OracleChecked(1)
 				// binSaturated = (bin below the potential depth) and (counted peers >= threshold)
 				wantOver := bin < prePot && cnt >= effOver
-				wantSat := bin < prePot && cnt >= sat
+				wantSat := bin < prePot && cnt >= satBefore
 				if preOver && !wantOver {
 					violate(jc, "sat:oversaturated-below-threshold", fmt.Sprintf("step %d: bin %d (potential depth %d) has %d counted peers, threshold %d, but is reported oversaturated", step, bin, prePot, cnt, effOver), cnt, effOver)
 				}
@@ -404,7 +415,7 @@ func runCase(jc jcase) {
 					violate(jc, "sat:not-oversaturated-at-threshold", fmt.Sprintf("step %d: bin %d (potential depth %d) has %d counted peers >= threshold %d but is not reported oversaturated", step, bin, prePot, cnt, effOver), cnt, effOver)
 				}
 				if preSat != wantSat {
-					violate(jc, "sat:saturated-flag", fmt.Sprintf("step %d: bin %d (potential depth %d) has %d counted peers, saturation %d, reported saturated=%v", step, bin, prePot, cnt, sat, preSat), preSat, wantSat)
+					violate(jc, "sat:saturated-flag", fmt.Sprintf("step %d: bin %d (potential depth %d) has %d counted peers, saturation %d, reported saturated=%v", step, bin, prePot, cnt, satBefore, preSat), preSat, wantSat)
 				}
 			}
 			switch ev.K {
@@ -454,6 +465,8 @@ func runCase(jc jcase) {
 				evCoq = append(evCoq, hx.CoqApp("KAdd", coqIDs(ev.Ps)))
 			case "prot":
 				evCoq = append(evCoq, hx.CoqApp("KProt", coqIDs(ev.Ps)))
+			case "newkad":
+				evCoq = append(evCoq, hx.CoqApp("KNew", coqID(ev.P)))
 			case "reach":
 				if ev.F1 {
 					if n := len(evCoq); n > 0 && len(pendingRs) > 0 && len(calls) == 0 {
